@@ -131,6 +131,34 @@ PROPS = {
              "the same values (each a distinct input)",
         exhaustive=True,
     ),
+    "C07": dict(
+        level="exploration",
+        level_text="input space derived from the specification (TLC evaluates Gen_FieldMap: the field map of template files of all 13 "
+                   "types x 39 boundary values for every single 32-bit field of .shp and .shx, consistent-but-unbacked count/length "
+                   "combinations) plus truncations/extensions, bit flips and unstructured bytes behind a valid file code; every "
+                   "reader entry point (open, full iteration past errors, read_nth, seek, shape_count, iteration after seek) runs "
+                   "in child processes with overflow checks and debug assertions on, under catch_unwind, a watchdog and an "
+                   "allocation cap; TLC validates every outcome (value or error only, iteration bounded by input size) and, where "
+                   "the reader model reads the mutated file cleanly, equality of the shapes",
+        level_note="the deciding observations (panic, abort, hang) are the harness's, not the specification's (DESIGN section 6); "
+                   "exhaustive over field x boundary value for the templates, sampled for bit flips and random bytes",
+        technique="model-derived input enumeration (TLA+ field map) + trace validation of harness-observed outcomes by TLC",
+        mc=[CODEC_MC],
+        stages=[dict(cmd="arbitrary", spec="Trace_Arbitrary", gen="Gen_FieldMap", quick=dict(chunks=12, workers=12), thorough=dict(chunks=16, workers=14))],
+        rule="an input = (template, mutation); distinct inputs counted by the harness",
+    ),
+    "C17": dict(
+        level="exploration",
+        level_text="the inputs of C07, in particular the combinations Gen_FieldMap derives with the size algebra used backwards "
+                   "(huge point / part / index-entry counts with the record length and header length that keep them mutually "
+                   "consistent); a counting global allocator measures the peak bytes requested during every single reader call; TLC "
+                   "checks peak <= 64 x input bytes + 64 KiB for every input",
+        level_note="the allocation measurements are the harness's (counting allocator around each library call on plain cursors)",
+        technique="model-derived input enumeration (TLA+ size algebra) + trace validation of measured allocation peaks by TLC",
+        mc=[CODEC_MC],
+        stages=[dict(cmd="arbitrary", spec="Trace_Arbitrary", gen="Gen_FieldMap", quick=dict(chunks=12, workers=12), thorough=dict(chunks=16, workers=14))],
+        rule="an input = (template, mutation); the 206+ unbacked combinations are the non-trivial core",
+    ),
     "C08": dict(
         level="model_checking",
         level_text="TLC checks Inv_Counts on every history of at most 6 calls of the complete-writer specification; every history of "
